@@ -13,6 +13,7 @@ import TracingModel.Core.RegistryDriver
 import TracingModel.Core.SpanDriver
 import TracingModel.Core.DirectiveDriver
 import TracingModel.Core.FilteringDriver
+import TracingModel.Core.NotifyDriver
 
 open TM TM.Wire
 
@@ -54,6 +55,10 @@ def dispatch (prop mode : String) : Option (List String → String) :=
   | "C07", "model" => some FilteringDriver.model
   | "C07", "spec" => some FilteringDriver.spec
   | "C07", "modelchain" => some FilteringDriver.modelChain
+  | "C09", "model" => some NotifyDriver.model
+  | "C09", "spec" => some NotifyDriver.spec
+  | "C09", "modelfilt" => some FilteringDriver.model
+  | "C09", "specfilt" => some FilteringDriver.spec
   | "C08", "model" => some DirectiveDriver.model2
   | "C11", "model" => some DirectiveDriver.model
   | "C19", "model" => some LevelsDriver.model
